@@ -110,13 +110,19 @@ fn gen_sworld(base: u64, run: u64) -> SWorld {
     let mut alpha: Vec<char> = pattern.chars().filter(|c| c.is_alphanumeric() || *c == ' ').collect();
     alpha.extend(alpha.clone());
     alpha.extend(['a', 'b', 'c', '1', '2', ' ', '\n', 'é', 'ß', '𝒳', 'x']);
-    let n = match wl.below(10) {
-        0 => 0,
-        1 => 1,
-        2..=6 => wl.range(2, 6),
-        _ => wl.range(5, 16),
+    let n = match wl.below(32) {
+        0..=2 => 0,
+        3..=5 => 1,
+        6..=20 => wl.range(2, 6),
+        21..=30 => wl.range(5, 16),
+        _ => wl.range(17, 80), // size thresholds (rescan windows, SIMD widths)
     };
-    let hay: String = (0..n).map(|_| alpha[wl.usize_below(alpha.len())]).collect();
+    let toks = simcore::gen::literal_tokens(&[pattern.as_str()], false);
+    let hay: String = if n >= 2 && !toks.is_empty() && wl.chance(2, 5) {
+        simcore::gen::gen_hay_tokens(&mut wl, &toks, &alpha, n)
+    } else {
+        (0..n).map(|_| alpha[wl.usize_below(alpha.len())]).collect()
+    };
     // script: the seeded interleaving of the two ends and of the provided methods
     let style = sc.below(10);
     let max_calls = 4 * hay.len() as u64 + 12;
